@@ -65,8 +65,11 @@ def _prune(keep):
                 pass
     complete.sort(reverse=True)
     maxkeep = int(os.environ.get("VERIF_CACHE_KEEP", "6"))
-    for _, d in complete[maxkeep:]:
-        if os.path.abspath(d) != os.path.abspath(keep):
+    for used, d in complete[maxkeep:]:
+        # never remove a build that was handed out recently: another check (a sweep next to a mutant run) may still be
+        # running children against it, and a child that loses its build imports the installed package instead (the run is
+        # then inconclusive - seen twice in parallel sweeps)
+        if os.path.abspath(d) != os.path.abspath(keep) and now - used > 3 * 3600:
             shutil.rmtree(d, ignore_errors=True)
 
 
